@@ -296,6 +296,7 @@ Proof.
   - now apply RSetContentLength_inv.
   - apply (rstep_inv _ (ROSetContentType defaultContentType)); [|exact I].
     apply (rstep_inv _ (ROSetStatusCode code)); [apply inv_empty|exact I].
+  - cbn [emptyResponse r_hd]. apply inv_empty.
 Qed.
 Lemma hrun_inv prog : forall R, Rinv R -> Forall hop_wf prog -> Rinv (hrun R prog).
 Proof.
